@@ -8,7 +8,7 @@ from . import common, e2
 
 PID = "C09"
 PROPS_FILE = "props/C09.v"
-MODEL_TARGETS = ["model/GraphDump.vo", "model/GraphInv.vo"]
+MODEL_TARGETS = ["model/GraphDump.vo", "model/GraphInv.vo", "model/GraphTree.vo", "model/GraphTreeInv.vo"]
 RULE = ("E2: a seeded online generator drives the real Workflow + Scheduler (in-memory SQLite, dispatch through the real "
         "pop_next_job) through the transaction alphabet of model/Graph.v following the executor / director / startup / "
         "finalize protocols (rejected requests, crashes, detached-but-running steps, identical re-declaration = full "
@@ -58,7 +58,7 @@ def correspondence(ctx, n_length=None, tag=""):
     traces = _traces(ctx, n, length, tag)
     ctx.traces = traces
     checks, inv_checks, proto_checks = [], [], []
-    header = e2.HEADER.replace("model.GraphDump.", "model.GraphDump model.GraphInv.")
+    header = e2.HEADER.replace("model.GraphTree.", "model.GraphTree model.GraphInv model.GraphTreeInv.")
     for tr, cnt, strict in traces:
         for k, v in cnt.items():
             ctx.count(k, v)
@@ -69,11 +69,11 @@ def correspondence(ctx, n_length=None, tag=""):
             prev = d
         checks.append(e2.cq_trace(tr, 3))
         ops = common.coq_list([e2.cq_op(t[0]) for t in tr if t[0][0] != "dispatch_error"])
-        inv_checks.append(f"all_prefixes_ok inv_b (init_st 3) {ops}")
-        proto_checks.append(("inv_succeeded_b", f"all_prefixes_ok inv_succeeded_b (init_st 3) {ops}"))
-        proto_checks.append(("inv_running_nohash_b", f"all_prefixes_ok inv_running_nohash_b (init_st 3) {ops}"))
-        proto_checks.append(("protocol_ok_run", f"protocol_ok_run (init_st 3) {ops}"))
-        proto_checks.append(("inv_full_b", f"all_prefixes_ok inv_full_b (init_st 3) {ops}"))
+        inv_checks.append(f"all_prefixes_ok_t inv_b (init_st 3) {ops}")
+        proto_checks.append(("inv_succeeded_b", f"all_prefixes_ok_t inv_succeeded_b (init_st 3) {ops}"))
+        proto_checks.append(("inv_treefile_b", f"all_prefixes_ok_t inv_treefile_b (init_st 3) {ops}"))
+        proto_checks.append(("protocol_ok_run_t", f"protocol_ok_run_t (init_st 3) {ops}"))
+        proto_checks.append(("inv_full_b", f"all_prefixes_ok_t inv_full_b (init_st 3) {ops}"))
     ctx.sample({"trace_prefix": [list(map(str, t[:2])) for t in traces[0][0][:8]]})
     fixed = [(n, tr) for n, tr in fixed_traces(ctx).items() if tr is not None]
     fbad = common.run_cases(ctx, "e2fixed", header, [e2.cq_trace(tr, 3) for _, tr in fixed], chunk=6)
@@ -86,7 +86,7 @@ def correspondence(ctx, n_length=None, tag=""):
     for b in bad[:3]:
         tr = [t for t in traces[b][0] if t[0][0] != "dispatch_error"]
         items = [f"({e2.cq_op(op)}, {e2.OUTC[oc]}, {e2.cq_dump(d)})" for op, oc, _, d in tr]
-        v = common.eval_terms(ctx, "e2diag", header, [f"first_bad 0 (init_st 3) {common.coq_list(items)}"])
+        v = common.eval_terms(ctx, "e2diag", header, [f"first_bad_t 0 (init_st 3) {common.coq_list(items)}"])
         import re
         m = re.search(r"Some (\d+)", v[0] or "")
         k = int(m.group(1)) if m else None
@@ -137,8 +137,56 @@ DEFINE_OWN_CREATOR = [
     ("exec_end", "./plan.py", (), "FAILED", (), False, False),
     ("define_step", ("step", "C"), "K", (), (), (), (), "DEFAULT"),
 ]
+RECYCLE_TREE_CONFLICT = [
+    ("declare_static", ("root", ""), ("plan.py",)),
+    ("update_hashes", "CONFIRMED", (("plan.py", 1),)),
+    ("define_step", ("root", ""), "./plan.py", ("plan.py",), (), (), (), "PLAN"),
+    ("dispatch", "./plan.py"),
+    ("reset_for_rerun", "./plan.py"),
+    ("define_step", ("step", "./plan.py"), "A", (), (), (), (), "DEFAULT"),
+    ("exec_end", "./plan.py", (), "SUCCEEDED", (), True, False),
+    ("dispatch", "A"),
+    ("reset_for_rerun", "A"),
+    ("register_tree", ("step", "A"), "d/"),
+    ("exec_end", "A", (), "SUCCEEDED", (), True, False),
+    ("mark_step_pending", "./plan.py"),
+    ("dispatch", "./plan.py"),
+    ("reset_to_pending", "./plan.py"),
+    ("dispatch", "./plan.py"),
+    ("reset_for_rerun", "./plan.py"),
+    ("define_step", ("step", "./plan.py"), "B", (), (), ("d/g0",), (), "DEFAULT"),
+    ("dispatch", "B"),
+    ("reset_for_rerun", "B"),
+    ("register_tree", ("step", "B"), "d/e/"),
+    ("define_step", ("step", "./plan.py"), "A", (), (), (), (), "DEFAULT"),
+]
 FIXED_TRACES = {"self-definition": SELF_DEFINITION, "hold-outside-protocol": HOLD_OUTSIDE_PROTOCOL,
-                "define-own-creator": DEFINE_OWN_CREATOR}
+                "define-own-creator": DEFINE_OWN_CREATOR, "recycle-tree-conflict": RECYCLE_TREE_CONFLICT}
+
+STATIC_STATES = (12, 13, 14)
+
+
+def tree_ownership_violation(d):
+    """Direct check on a dump of the real database: attached static trees are pairwise non-nested and
+    an attached file under an attached tree is a STATIC file created by that tree."""
+    det = {k: x for k, _, x in d["nodes"]}
+    cre = {k: c for k, c, _ in d["nodes"]}
+    fstate = {l: s for l, s, _ in d["files"]}
+    trees = sorted(k[1] for k in det if k[0] == "st" and not det[k])
+    for t1 in trees:
+        for t2 in trees:
+            if t1 != t2 and t2.startswith(t1):
+                return "nested-attached-trees", f"{t1} contains {t2}"
+    for k in sorted(det):
+        if k[0] != "file" or det[k]:
+            continue
+        for t in trees:
+            if k[1].startswith(t):
+                if fstate.get(k[1]) not in STATIC_STATES:
+                    return "product-under-attached-tree", f"{k[1]} (state {fstate.get(k[1])}) under {t}"
+                if cre.get(k) != ("st", t):
+                    return "foreign-static-under-attached-tree", f"{k[1]} created by {cre.get(k)} under {t}"
+    return None
 
 
 async def _run_fixed(ops):
@@ -222,6 +270,12 @@ def oracle(ctx):
             continue
         for j, (op, oc, detail, d) in enumerate(tr):
             ctx.case(("fixed", name, j), nontrivial=True)
+            viol = tree_ownership_violation(d)
+            if viol:
+                ctx.add_failure("oracle", "tree-ownership", f"oracle:tree-ownership:{viol[0]}",
+                                f"fixed witness '{name}': after transaction {j} ({op}): {viol[1]}",
+                                witness={"ops": [list(map(str, t[:2])) for t in tr[: j + 1]]})
+                break
             if oc in ("internal", "hang"):
                 ctx.add_failure("oracle", "internal-error", internal_signature(op, detail, oc),
                                 f"fixed witness '{name}': transaction {j} raised an internal error: {op} -> {detail}",
@@ -233,6 +287,12 @@ def oracle(ctx):
                             f"Trellis/Workflow._check_consistency (strict) failed after trace {i}: {strict}",
                             witness={"ops": [list(map(str, t[:2])) for t in tr]})
         for j, (op, oc, detail, d) in enumerate(tr):
+            viol = tree_ownership_violation(d)
+            if viol:
+                ctx.add_failure("oracle", "tree-ownership", f"oracle:tree-ownership:{viol[0]}",
+                                f"trace {i}, after transaction {j} ({op}): {viol[1]}",
+                                witness={"ops": [list(map(str, t[:2])) for t in tr[: j + 1]]})
+                break
             if oc in ("internal", "hang"):
                 ctx.add_failure("oracle", "internal-error", internal_signature(op, detail, oc),
                                 f"transaction {j} of trace {i} raised an internal error: {op} -> {detail}",
